@@ -1,11 +1,18 @@
-"""C18 — service loops.  Correspondence of the Lean Runnable/Notify model with cloudsync.runnable.Runnable and
+"""C18 — service loops.  Correspondence of the Lean models with cloudsync.runnable.Runnable and
 cloudsync.notification.NotificationManager:
   (a) sequential loop: scripted outcome sequences, requested sleeps recorded (virtual time) vs `runSeq`;
-  (b) stop/start/wake protocol: real threads driven by a cooperative scheduler that parks the loop thread at its
-      hooks (do, interruptable_sleep) and the application thread inside wake(); the same schedule is executed by
-      the model (driver layer `proto`) and the observable summaries are compared after every step;
-  (c) notification queue vs `nRun`.
-Search oracle after a break: the C18 statements evaluated on the implementation over the same schedules."""
+  (b) stop/start/wake protocol at hook granularity (loop: do / sleep; application: wake / join) vs the coarse transition system of
+      Model/Runnable.lean part B (driver layer `proto`);
+  (c) notification queue vs `nRun`;
+  (d) the two-thread small-step model Model/RunnableThreads.lean (driver layer `threads`) vs the REAL start/stop/wake/wait/run,
+      single-stepped statement by statement under a deterministic scheduler (c18_sched.py): exhaustive interleavings of
+      stop(forever, wait) with the prologue of run() after start() has returned, interleavings of a restart with the exit of the
+      old loop, random schedules; flags, statement labels of both threads, counters and call results compared after EVERY tick;
+  (e) the statement / write-site table of runnable.py (tools/gen_runnable_sites.py -> Gen/RunnableSites.lean) proved equal to the
+      audited table the model was written from (Props/C18Sites.lean), rebuilt and audited on every run.
+The property's own statements (hypotheses exactly those of the theorems of Props/C18Threads.lean) are evaluated on every real
+run of (d); after a break of the proof audit, of (e) or of a correspondence, larger schedule families are searched."""
+import json
 import os
 import sys
 import threading
@@ -14,6 +21,7 @@ from fractions import Fraction
 
 sys.path.insert(0, os.path.dirname(os.path.abspath(__file__)))
 from common import *  # noqa
+import c18_sched  # noqa
 
 PID = "C18"
 FP_SPEC = {"cloudsync/runnable.py": ["Runnable.run", "Runnable.stop", "Runnable.start", "Runnable.wake", "Runnable.wait",
@@ -93,171 +101,91 @@ def corr_runseq(rng, n):
     return lines, dis
 
 
-# ------------------------------------------------------------------ (b) protocol under a cooperative scheduler
+# ------------------------------------------------------------------ (b) protocol at hook granularity (old `proto` layer)
+# The coarse model of Model/Runnable.lean part B observes the threads only at their "hooks": the loop thread about to call do(),
+# inside its sleep, or dead; the application thread about to call wake(), inside a join, or idle.  The same schedules are now
+# realised deterministically with the statement-level controller of c18_sched.py: a token moves one thread from hook to hook.
 
-class Gate:
-    """parks a thread at a named hook until the scheduler releases it"""
-    def __init__(self):
-        self.cv = threading.Condition()
-        self.parked = {}      # thread role -> hook name
-        self.grant = {}       # role -> token
-
-    def hit(self, role, hook):
-        with self.cv:
-            self.parked[role] = hook
-            self.cv.notify_all()
-            while role not in self.grant:
-                self.cv.wait(5)
-                if time.time() > self.deadline:
-                    self.parked.pop(role, None)
-                    return "timeout"
-            tok = self.grant.pop(role)
-            self.parked.pop(role, None)
-            self.cv.notify_all()
-            return tok
-
-    def wait_parked_or(self, role, pred, timeout=3.0):
-        end = time.time() + timeout
-        with self.cv:
-            while role not in self.parked and not pred():
-                rem = end - time.time()
-                if rem <= 0:
-                    return False
-                self.cv.wait(min(rem, 0.02))
-            return True
-
-    def release(self, role, tok=True):
-        with self.cv:
-            self.grant[role] = tok
-            self.cv.notify_all()
-
-
-def make_service(gate):
-    import_repo()
-    from cloudsync.runnable import Runnable
-
-    class Svc(Runnable):
-        def __init__(self):
-            self.n_do = 0
-            self.n_done = 0
-
-        def do(self):
-            gate.hit("loop", "do")
-            self.n_do += 1
-
-        def done(self):
-            self.n_done += 1
-
-        def interruptable_sleep(self, secs):
-            while True:
-                tok = gate.hit("loop", "sleep")
-                ev = self._Runnable__interrupt
-                if tok == "timeout" or (ev is not None and ev.is_set()):
-                    # the real implementation, with a zero wait: consumes the event if set
-                    Runnable.interruptable_sleep(self, 0)
-                    return
-                # not woken and no timeout: still sleeping; park again
-
-        def wake(self):
-            if threading.current_thread().name == "app":
-                gate.hit("app", "wake")
-            Runnable.wake(self)
-
-    return Svc()
+DO_LABEL = "run:self.do()"
+WAKE_LABEL = "wake:if self.__interrupt is None"
 
 
 class ProtoRun:
     def __init__(self):
-        self.gate = Gate()
-        self.gate.deadline = time.time() + 60
-        self.svc = make_service(self.gate)
-        self.app = None
+        self.ctl = c18_sched.Ctl()
         self.refused = 0
         self.started = 0
-        self.app_exc = None
-        self.app_call = None
+        self.cur_call = None
 
-    def loop_thread(self):
-        return self.svc._Runnable__thread
+    # --- hooks
+    def loop_at_hook(self):
+        st, info = self.ctl.status("S")
+        return st in ("absent", "done") or (st == "parked" and info == DO_LABEL) or (st == "blocked" and info[0] == "evwait")
 
-    def loop_alive(self):
-        t = self.loop_thread()
-        return bool(t and t.is_alive())
+    def app_at_hook(self):
+        st, info = self.ctl.status("C")
+        return st in ("absent", "done") or (st == "parked" and info == WAKE_LABEL) or (st == "blocked" and info[0] == "join")
 
     def app_busy(self):
-        return bool(self.app and self.app.is_alive())
+        return self.ctl.status("C")[0] not in ("absent", "done")
 
-    def call(self, what, *args):
-        self.app_call = (what,) + tuple(args)
+    def loop_alive(self):
+        return self.ctl.status("S")[0] not in ("absent", "done")
 
-        def body():
-            try:
-                if what == "stop":
-                    self.svc.stop(forever=args[0], wait=args[1])
-                elif what == "wake":
-                    self.svc.wake()
-                elif what == "wait":
-                    self.svc.wait()
-                elif what == "start":
-                    try:
-                        self.svc.start(daemon=True, sleep=0.01)
-                        self.started += 1
-                    except RuntimeError:
-                        self.refused += 1
-            except _Stop:
-                pass
-            except Exception as e:  # noqa
-                self.app_exc = repr(e)
-        self.app = threading.Thread(target=body, name="app", daemon=True)
-        self.app.start()
+    def _account(self):
+        """a finished call: count start() results once"""
+        if self.cur_call == "start" and not self.app_busy():
+            if self.ctl.last_ret == "RuntimeError":
+                self.refused += 1
+            elif self.ctl.last_ret.startswith("ok"):
+                self.started += 1
+            self.cur_call = None
 
-    def app_blocked_in_join(self):
-        c = self.app_call
-        return self.app_busy() and "app" not in self.gate.parked and c is not None and \
-            ((c[0] == "stop" and c[2]) or c[0] == "wait") and self.loop_alive()
+    def app_to_hook(self, tmo=False):
+        if not self.ctl.tick("C", tmo=tmo):
+            return False
+        for _ in range(40):
+            if self.app_at_hook():
+                break
+            if not self.ctl.tick("C", tmo=tmo):
+                break
+        self._account()
+        return True
+
+    def loop_to_hook(self, tmo):
+        if not self.ctl.tick("S", tmo=tmo):
+            return False
+        for _ in range(40):
+            if self.loop_at_hook():
+                break
+            if not self.ctl.tick("S", tmo=False):
+                break
+        return True
 
     def settle(self):
-        """wait until every thread is parked at a hook, blocked in a join, or finished (generous: the machine may be loaded)"""
-        g = self.gate
-        end = time.time() + 20
-        while time.time() < end:
-            loop_ok = ("loop" in g.parked) or not self.loop_alive()
-            app_ok = ("app" in g.parked) or not self.app_busy() or self.app_blocked_in_join()
-            if loop_ok and app_ok:
-                # re-check after a short pause: a thread that has just been released may not have moved yet
-                time.sleep(0.002)
-                loop_ok = ("loop" in g.parked) or not self.loop_alive()
-                app_ok = ("app" in g.parked) or not self.app_busy() or self.app_blocked_in_join()
-                if loop_ok and app_ok:
-                    return
-            time.sleep(0.001)
-        raise HarnessError("threads did not settle")
+        """a freshly started loop thread runs up to its first do(); a join completes as soon as the loop thread is dead"""
+        for _ in range(40):
+            if self.loop_at_hook():
+                break
+            if not self.ctl.tick("S", tmo=False):
+                break
+        st, info = self.ctl.status("C")
+        if st == "blocked" and info[0] == "join" and not self.loop_alive():
+            self.app_to_hook()
+
+    def call(self, what, *args):
+        self.cur_call = what
+        self.ctl.call(what, *args)
+        self._account()
 
     def obs(self):
-        g = self.gate
-        if not self.loop_thread():
-            lc = "none"
-        elif not self.loop_alive():
-            lc = "dead"
-        else:
-            lc = g.parked.get("loop", "mid")
-        if not self.app_busy():
-            ac = "idle"
-        elif g.parked.get("app") == "wake":
-            ac = "wake"
-        else:
-            ac = "join"
-        return "do=%d done=%d refused=%d started=%d loop=%s app=%s bad=0" % (self.svc.n_do, self.svc.n_done, self.refused, self.started, lc, ac)
-
-    def cleanup(self):
-        self.gate.deadline = 0
-        try:
-            self.svc._Runnable__stopping = True
-        except Exception:
-            pass
-        for role in ("loop", "app"):
-            self.gate.release(role, "timeout")
-        time.sleep(0.01)
+        st, info = self.ctl.status("S")
+        lc = "none" if st == "absent" else "dead" if st == "done" else "do" if (st == "parked" and info == DO_LABEL) else \
+            "sleep" if st == "blocked" else "mid"
+        st, info = self.ctl.status("C")
+        ac = "idle" if st in ("absent", "done") else "wake" if (st == "parked" and info == WAKE_LABEL) else \
+            "join" if st == "blocked" else "mid"
+        return "do=%d done=%d refused=%d started=%d loop=%s app=%s bad=0" % (len(self.ctl.dos), self.ctl.n_done, self.refused, self.started, lc, ac)
 
 
 def gen_schedule(rng, n):
@@ -280,46 +208,48 @@ def gen_schedule(rng, n):
     return sched
 
 
-def run_schedule_real(sched, model_obs):
-    """executes sched on the real Runnable; model_obs (list) is used to skip steps that are not enabled in the model
-    state (same rule on both sides: an app call while the app thread is busy is not issued)"""
+def run_schedule_real(sched, model_obs=None):
+    """executes a hook-level schedule on the real Runnable (same skip rules as the driver layer `proto`: an application call
+    while the application thread is busy is not issued; a start() while the loop thread is alive is not issued — it would sit
+    one second in join(timeout=1))"""
     pr = ProtoRun()
     out = []
     try:
-        for i, tok in enumerate(sched):
-            g = pr.gate
+        for tok in sched:
             if tok in ("L", "Lt"):
-                if "loop" in g.parked:
-                    hook = g.parked["loop"]
-                    ev = pr.svc._Runnable__interrupt
-                    if hook == "sleep" and tok == "L" and not (ev is not None and ev.is_set()):
-                        pass   # blocked: no timeout and not woken
-                    else:
-                        g.release("loop", "timeout" if tok == "Lt" else "go")
-                        # wait for it to leave the hook
-                        t0 = time.time()
-                        while "loop" in g.grant and time.time() - t0 < 2:
-                            time.sleep(0.0005)
+                if pr.loop_at_hook():
+                    pr.loop_to_hook(tok == "Lt")
+                pr.settle()
             elif tok == "A":
-                if "app" in g.parked:
-                    g.release("app", "go")
-                    t0 = time.time()
-                    while "app" in g.grant and time.time() - t0 < 2:
-                        time.sleep(0.0005)
+                if pr.app_busy():
+                    pr.app_to_hook()
+                pr.settle()
             elif tok.startswith("C "):
+                parts = tok.split()
                 if not pr.app_busy():
-                    parts = tok.split()
                     if parts[1] == "stop":
                         pr.call("stop", parts[2] == "T", parts[3] == "T")
-                    elif parts[1] == "start" and pr.loop_alive():
-                        pass   # would block one second in join(timeout=1): not scheduled (model: same skip)
-                    else:
-                        pr.call(parts[1])
-            pr.settle()
+                        if pr.app_busy() and not pr.app_at_hook():
+                            pr.app_to_hook()
+                        pr.settle()
+                    elif parts[1] == "start":
+                        if not pr.loop_alive():
+                            pr.call("start")
+                            if pr.app_busy():
+                                pr.app_to_hook()
+                            pr.settle()
+                    elif parts[1] == "wake":
+                        pr.call("wake")
+                    elif parts[1] == "wait":
+                        pr.call("wait", False)
+                        if pr.app_busy() and not pr.app_at_hook():
+                            pr.app_to_hook()
+                        pr.settle()
             out.append(pr.obs())
-        return out, pr.app_exc
+        exc = pr.ctl.last_ret if pr.ctl.last_ret not in ("-", "RuntimeError") and not pr.ctl.last_ret.startswith("ok") else None
+        return out, exc
     finally:
-        pr.cleanup()
+        pr.ctl.close()
 
 
 def model_schedule(scheds):
@@ -330,15 +260,25 @@ def model_schedule(scheds):
     return lines, run_driver("proto", lines)
 
 
+def _split_model(scheds, obs):
+    """cut the driver output of model_schedule(scheds) back into one list per schedule (first entry: the state after reset)"""
+    out, pos = [], 0
+    for sched in scheds:
+        out.append(obs[pos: pos + 1 + len(sched)])
+        pos += 1 + len(sched)
+    return out
+
+
 def corr_proto(rng, nsched, slen):
-    """the schedule is first filtered through the model so that both sides skip the same disabled calls"""
-    dis, all_lines, nsteps = [], [], 0
-    for _ in range(nsched):
-        sched = gen_schedule(rng, slen)
-        # pre-run on the model to drop calls made while the app thread is busy or a start while the loop is alive
-        lines, obs = model_schedule([sched])
-        keep, state = [], obs[0]
-        for tok, o in zip(sched, obs[1:]):
+    """the schedules are first filtered through the model so that both sides skip the same disabled calls (two driver runs in all)"""
+    dis, nsteps = [], 0
+    raw = [gen_schedule(rng, slen) for _ in range(nsched)]
+    _lines, obs = model_schedule(raw)
+    kept = []
+    for sched, ob in zip(raw, _split_model(raw, obs)):
+        # drop calls made while the app thread is busy or a start while the loop is alive
+        keep, state = [], ob[0]
+        for tok, o in zip(sched, ob[1:]):
             busy = "app=idle" not in state
             alive = ("loop=none" not in state) and ("loop=dead" not in state)
             if tok.startswith("C ") and busy:
@@ -348,11 +288,12 @@ def corr_proto(rng, nsched, slen):
             else:
                 keep.append(tok)
             state = o
-        lines, obs = model_schedule([keep])
-        real, exc = run_schedule_real(keep, obs[1:])
-        all_lines += lines
+        kept.append(keep)
+    all_lines, obs = model_schedule(kept)
+    for keep, ob in zip(kept, _split_model(kept, obs)):
+        real, exc = run_schedule_real(keep, ob[1:])
         nsteps += len(keep)
-        for i, (r, m) in enumerate(zip(real, obs[1:])):
+        for i, (r, m) in enumerate(zip(real, ob[1:])):
             if r != m:
                 dis.append({"layer": "proto", "schedule": keep[:i + 1], "implementation": r, "model": m, "app_exception": exc})
                 break
@@ -414,6 +355,296 @@ def corr_notify(rng, n):
     return lines, dis
 
 
+# ------------------------------------------------------------------ (d) two-thread small-step model vs the real code, statement by statement
+
+OUTS = "SSNBEXF"
+START = ["call start"] + ["C F"] * 7
+
+
+def _s(rng, tmo=False, untl=False):
+    return "S %s %s %s" % ("T" if tmo else "F", rng.choice(OUTS), "T" if untl else "F")
+
+
+def words(nc, ns):
+    """all interleavings of nc caller ticks with ns service ticks"""
+    from itertools import combinations
+    for pos in combinations(range(nc + ns), ns):
+        yield ["S" if i in pos else "C" for i in range(nc + ns)]
+
+
+def tail_after_stop(rng, f):
+    """after the window: the service thread alone (no sleep ever times out), the caller finishes; then the restart leg"""
+    t = [_s(rng) for _ in range(12)] + ["C F"] * 3 + [_s(rng, tmo=True) for _ in range(10)] + ["C F"]
+    if f:
+        t += ["call start", "C F", "C F"]
+    else:
+        t += ["call start"] + ["C F"] * 8 + [_s(rng) for _ in range(5)] + ["call stop T T"] + ["C F"] * 6 + \
+            [_s(rng, tmo=True) for _ in range(12)] + ["C F"] * 2 + ["call start", "C F", "C F"]
+    return t
+
+
+def window_schedules(rng, nc, ns, combos):
+    """EXHAUSTIVE for the prologue window: start() has returned, the service thread has not executed a statement of run() yet;
+    every interleaving of the first nc statements of stop(forever, wait) with the first ns statements of run()"""
+    out = []
+    for (f, w) in combos:
+        for word in words(nc, ns):
+            sched = START + ["call stop %s %s" % ("T" if f else "F", "T" if w else "F")] + \
+                [("C F" if x == "C" else _s(rng)) for x in word] + tail_after_stop(rng, f)
+            out.append(("window", sched))
+    return out
+
+
+def restart_schedules(rng, nc, ns, limit):
+    """start() racing the exit of the old loop: stop(False, wait=False) has returned while the loop is somewhere in its body;
+    every interleaving (or a sample of `limit`) of the first nc statements of the new start() with the next ns statements of run()"""
+    allw = list(words(nc, ns))
+    if limit is not None and len(allw) > limit:
+        allw = rng.sample(allw, limit)
+    out = []
+    for word in allw:
+        k0 = rng.choice([3, 4, 5, 6])
+        tm = rng.choice("TF")
+        sched = START + [_s(rng) for _ in range(k0)] + ["call stop F F"] + ["C F"] * 5 + ["call start"] + \
+            [("C " + tm if x == "C" else _s(rng, tmo=True)) for x in word] + ["C T"] * 4 + [_s(rng, tmo=True) for _ in range(14)] + \
+            ["call stop T T"] + ["C F"] * 6 + [_s(rng, tmo=True) for _ in range(12)] + ["C F"] * 2
+        out.append(("restart", sched))
+    return out
+
+
+def random_schedules(rng, n, lo, hi):
+    out = []
+    for _ in range(n):
+        sched = list(START) if rng.random() < 0.8 else []
+        for _ in range(rng.randint(lo, hi)):
+            r = rng.random()
+            if r < 0.45:
+                sched.append(_s(rng, tmo=rng.random() < 0.5, untl=rng.random() < 0.05))
+            elif r < 0.75:
+                sched.append("C " + ("T" if rng.random() < 0.3 else "F"))
+            else:
+                q = rng.random()
+                if q < 0.5:
+                    sched.append("call stop %s %s" % (rng.choice("TF"), rng.choice("TF")))
+                elif q < 0.7:
+                    sched.append("call start")
+                elif q < 0.85:
+                    sched.append("call wake")
+                else:
+                    sched.append("call wait " + rng.choice("TF"))
+        out.append(("random", sched))
+    return out
+
+
+ATTRERR_SCHED = START + ["S F S T"] * 5 + ["call stop T T", "C F", "C F", "C F", "S F S F", "S F S F", "S F S F", "C F", "S F S F", "S F S F"]
+ALREADY_SCHED = START + ["S F S F"] * 5 + ["call stop F F"] + ["C F"] * 5 + ["call start", "C F", "C F", "C F", "C T", "C F"]
+
+
+def judge(sched, facts):
+    """C18's own statements (exactly the hypotheses of stop_is_never_lost, loop_exits_after_stop(_interleaved),
+    no_do_after_waiting_stop_returns, restart_after_nonfinal_stop_partial, no_restart_after_final_stop) evaluated on one run of
+    the real code.  -> list of failures"""
+    bad = []
+    last_call = None
+    req = None            # (index, do count) : a stop() has been issued (returned normally, or sits in its join) and no start() since
+    s_moved = 0           # service statements executed since then
+    quiet = None          # (index, do, done) : a waiting stop() / a wait() has returned and no start() since
+    final_done = False    # the last completed stop() was final (and no non-final stop() was begun since)
+    restartable = False   # the last completed call was stop(False, True) -> a start() must succeed
+    expect_start = None   # "refuse" | "ok"
+    fresh = None          # (index, do) after a successful restart: the loop must run again
+    fresh_s = 0
+    for i, (tok, f) in enumerate(zip(sched, facts)):
+        p = tok.split()
+        issued = p[0] == "call" and f["moved"]
+        if issued:
+            what = p[1]
+            last_call = (what, p[2:])
+            fresh = None
+            if what == "start":
+                expect_start = "refuse" if final_done else ("ok" if restartable else None)
+                req, quiet, s_moved = None, None, 0
+            if what == "stop" and p[2] == "F":
+                final_done = False
+            restartable = False
+        svc_alive = f["svc"] not in ("absent", "done")
+        done_call = f["cal"] == "done"
+        if last_call and last_call[0] == "stop":
+            if req is None and (f["cal"] == "blocked" or (done_call and f["ret"] == "ok:None")):
+                req, s_moved = (i, f["do"]), 0
+            if done_call and f["ret"] == "ok:None":
+                if last_call[1][0] == "T":
+                    final_done = True
+                if last_call[1][1] == "T" and quiet is None:
+                    quiet = (i, f["do"], f["done"])
+                    if svc_alive:
+                        bad.append({"statement": "when stop(wait=True) returns the loop thread has ended", "at": i})
+                    if last_call[1][0] == "F":
+                        restartable = True
+        if last_call and last_call[0] == "wait" and done_call and f["ret"] == "ok:True" and quiet is None:
+            quiet = (i, f["do"], f["done"])
+            if svc_alive:
+                bad.append({"statement": "when wait() returns True the loop thread has ended", "at": i})
+        if last_call and last_call[0] == "start" and done_call and expect_start:
+            if expect_start == "refuse" and f["ret"].startswith("ok"):
+                bad.append({"statement": "a finally stopped service refuses to start again", "at": i})
+            if expect_start == "ok":
+                if f["ret"] != "ok:None":
+                    bad.append({"statement": "start() after a completed stop(forever=False, wait=True) starts the loop again", "at": i,
+                                "start_result": f["ret"]})
+                else:
+                    fresh, fresh_s = (i, f["do"]), 0
+            expect_start = None
+        if p[0] == "S" and req is not None and i > req[0]:
+            before_alive = facts[i - 1]["svc"] not in ("absent", "done")
+            if f["moved"]:
+                s_moved += 1
+                if s_moved >= 12 and svc_alive:
+                    bad.append({"statement": "once stop() has been issued (and start() is not called again) the loop thread ends within 11 of its "
+                                             "own statements", "stop_issued_at": req[0], "at": i, "do_calls_since": f["do"] - req[1]})
+                    req = None
+            elif before_alive and p[1] == "F":
+                bad.append({"statement": "once stop() has been issued the loop thread never sleeps through it (here: blocked in its sleep, "
+                                         "not woken, with the stop request pending)", "stop_issued_at": req[0], "at": i})
+                req = None
+        if req is not None and f["do"] > req[1] + 1:
+            bad.append({"statement": "once stop() has been issued (its flag write done, start() not called again) at most one further do() begins",
+                        "stop_issued_at": req[0], "at": i, "do_calls_since": f["do"] - req[1]})
+            req = None
+        if quiet is not None and (f["do"] != quiet[1]):
+            bad.append({"statement": "once a waiting stop() / wait() has returned the work function is never called again (until start())",
+                        "returned_at": quiet[0], "at": i, "do_calls_since": f["do"] - quiet[1]})
+            quiet = None
+        if fresh is not None and p[0] == "S" and f["moved"]:
+            fresh_s += 1
+            if fresh_s == 5 and f["do"] < fresh[1] + 1:
+                bad.append({"statement": "after a restart the loop runs again: do() is called within the first five statements of run()",
+                            "restarted_at": fresh[0], "at": i})
+    return bad
+
+
+FIXED_SCHED = START + ["S F S F"] * 5 + ["call stop T T", "C F", "C F", "C F", "C F"] + ["S F S F"] * 12 + ["C F"] * 3
+
+
+def judge_done(sched, facts):
+    """cleanup: done() runs at most once per started thread, and exactly once when a final waiting stop() issued to a live loop has
+    returned (Props/C18Threads.lean cleanup_at_most_once_per_start, cleanup_exactly_once_after_final_waiting_stop, cleanup_only_after_final_stop; coarse model:
+    Props/C18.lean protocol_safe P2/P3)"""
+    bad = []
+    starts_ok, pend = 0, None
+    last = None
+    final_issued = False
+    for i, (tok, f) in enumerate(zip(sched, facts)):
+        p = tok.split()
+        if p[0] == "call" and f["moved"]:
+            last = p[1:]
+            if p[1] == "stop" and p[2] == "T":
+                final_issued = True
+            pend = {"i": i, "done": f["done"], "live": None} if (p[1] == "stop" and p[2] == "T" and p[3] == "T") else None
+        if pend is not None and pend["live"] is None and p[0] == "C" and f["moved"]:
+            pend["live"] = facts[i - 1]["svc"] not in ("absent", "done")
+        if last and last[0] == "start" and f["cal"] == "done" and f["ret"] == "ok:None":
+            starts_ok += 1
+            last = None
+        if f["done"] > starts_ok:
+            bad.append({"statement": "cleanup (done()) runs at most once per started service thread", "at": i})
+            break
+        if f["done"] > 0 and not final_issued:
+            bad.append({"statement": "cleanup (done()) runs only for a final stop: no stop(forever=True) has been issued, yet done() was called", "at": i})
+            break
+        if pend is not None and f["cal"] == "done" and f["ret"] == "ok:None":
+            if pend["live"] and f["done"] != pend["done"] + 1:
+                bad.append({"statement": "after a final waiting stop() of a live loop has returned, cleanup (done()) has run exactly once",
+                            "stop_issued_at": pend["i"], "at": i, "done_calls_since": f["done"] - pend["done"]})
+            pend = None
+    return bad
+
+
+def corr_threads(scheds):
+    """run every schedule on the real Runnable (c18_sched) and on the model (driver layer `threads`), compare the observable
+    summary after every tick; evaluate the property statements on the real run as well"""
+    lines = []
+    for (_fam, sched) in scheds:
+        lines.append("reset 0")
+        lines += sched
+    model = run_driver("threads", lines)
+    dis, fails, pairs, leaked, ticks = [], [], {}, 0, 0
+    pos = 0
+    for (fam, sched) in scheds:
+        mobs = model[pos + 1: pos + 1 + len(sched)]
+        pos += 1 + len(sched)
+        robs, facts, lk = c18_sched.run_real(sched)
+        leaked += lk
+        ticks += len(sched)
+        for i, (r, m) in enumerate(zip(robs, mobs)):
+            key = r.split("|stopping")[0]
+            pairs[key] = pairs.get(key, 0) + 1
+            if r != m:
+                dis.append({"layer": "threads", "family": fam, "schedule": sched[:i + 1], "implementation": r, "model": m})
+                break
+        for b in judge(sched, facts) + judge_done(sched, facts):
+            b2 = dict(b)
+            b2.update({"family": fam, "schedule": sched[:b["at"] + 1], "observed": robs[b["at"]]})
+            fails.append(b2)
+    return lines, ticks, dis, fails, pairs, leaked
+
+
+# ------------------------------------------------------------------ the generated statement / write-site table
+
+def sites_obligation():
+    """regenerate Gen/RunnableSites.lean from the repo under test, build Props/C18Sites.lean (kept outside the default import
+    closure) and audit its two theorems; everything under one lock.  -> (ok, detail, n_stmts, changed)"""
+    import fcntl
+    import subprocess
+    sys.path.insert(0, os.path.join(VERIF, "tools"))
+    import gen_runnable_sites
+    os.makedirs(os.path.join(LEAN, ".lake"), exist_ok=True)
+    thms = ["CS.Runnable.Th.runnable_stmts_are_audited", "CS.Runnable.Th.runnable_writes_are_audited"]
+    with open(os.path.join(LEAN, ".lake", "c18sites.lock"), "w") as lk:
+        fcntl.flock(lk, fcntl.LOCK_EX)
+        try:
+            stmts, writes, changed = gen_runnable_sites.generate(write=True)
+            ok, log = lean_build_module("Csverif.Props.C18Sites")
+            if not ok:
+                return False, "Props/C18Sites.lean no longer checks (statement / write-site table of runnable.py differs from the audited one): " \
+                    + log[-500:], len(stmts), changed
+            adir = os.path.join(LEAN, ".lake", "audit")
+            os.makedirs(adir, exist_ok=True)
+            fn = os.path.join(adir, "Audit_C18Sites_%d.lean" % os.getpid())
+            with open(fn, "w") as f:
+                f.write("import Csverif.Props.C18Sites\n" + "".join("#print axioms %s\n" % t for t in thms))
+            p = subprocess.run(["lake", "env", "lean", fn], cwd=LEAN, capture_output=True, text=True, timeout=1800)
+            os.unlink(fn)
+            out = p.stdout + p.stderr
+            n_ok = 0
+            for t in thms:
+                m = re.search(r"'%s' depends on axioms: \[([^\]]*)\]" % re.escape(t), out)
+                if ("'%s' does not depend on any axioms" % t) in out:
+                    n_ok += 1
+                elif m and all(a.strip() in ALLOWED_AXIOMS for a in m.group(1).replace("\n", " ").split(",") if a.strip()):
+                    n_ok += 1
+            if n_ok == len(thms):
+                return True, "", len(stmts), changed
+            return False, "audit of the C18Sites theorems failed: " + out[-400:], len(stmts), changed
+        finally:
+            fcntl.flock(lk, fcntl.LOCK_UN)
+
+
+def table_diff():
+    """human-readable difference between the extracted and the audited statement table (for the replay file)"""
+    try:
+        sys.path.insert(0, os.path.join(VERIF, "tools"))
+        import gen_runnable_sites
+        stmts, writes = gen_runnable_sites.analyse(gen_runnable_sites.read_source())
+        src = open(os.path.join(LEAN, "Csverif", "Model", "RunnableThreads.lean"), encoding="utf8").read()
+        aud = re.findall(r'^  \("([^"]*)", "([^"]*)", "([^"]*)", "((?:[^"\\]|\\.)*)"\),?$', src, re.M)
+        aud = [tuple(x.replace('\\"', '"') for x in row) for row in aud]
+        cur = [(m, c, k, t) for (m, c, k, t, _l) in stmts]
+        return {"only_in_source": [list(r) for r in cur if r not in aud][:8], "only_in_audited_table": [list(r) for r in aud if r not in cur][:8]}
+    except Exception as e:  # noqa
+        return {"error": repr(e)}
+
+
 # ------------------------------------------------------------------ property oracle (search after a break)
 
 def oracle(rng, tier):
@@ -469,48 +700,139 @@ def oracle(rng, tier):
     return None
 
 
+def search_threads(rng, tier):
+    """after a break: look for a schedule on which one of the statements fails on the real code (larger windows, more samples)"""
+    fams = [window_schedules(rng, 6, 4, [(False, False), (False, True), (True, True), (True, False)]),
+            restart_schedules(rng, 6, 6, 150 if tier == "quick" else None),
+            random_schedules(rng, 300 if tier == "quick" else 3000, 20, 70)]
+    for fam in fams:
+        for (name, sched) in fam:
+            robs, facts, _lk = c18_sched.run_real(sched)
+            for b in judge(sched, facts) + judge_done(sched, facts):
+                b2 = dict(b)
+                b2.update({"family": name, "schedule": sched[:b["at"] + 1], "observed": robs[b["at"]],
+                           "how_to_replay": "cd harness && printf '%s\\n' <schedule tokens, one per line> | /venv/bin/python c18_sched.py"})
+                return b2
+    return None
+
+
+def replay_schedule(res, path):
+    """--replay <file>: run the statement-level schedule of a replay file on the real code and on the model, print both traces,
+    re-evaluate the property statements"""
+    with open(path) as f:
+        rp = json.load(f)
+    fl = rp.get("failing") or (rp.get("first_disagreements") or [{}])[0]
+    sched = fl.get("schedule")
+    if not isinstance(sched, list) or not sched or sched[0].split()[0] not in ("call", "C", "S"):
+        print("replay file has no statement-level schedule (layer %s)" % fl.get("layer"))
+        return
+    robs, facts, _lk = c18_sched.run_real(sched)
+    mobs = run_driver("threads", ["reset 0"] + sched)[1:]
+    for tok, r, m in zip(sched, robs, mobs):
+        print("%-16s real : %s" % (tok, r))
+        if r != m:
+            print("%-16s model: %s" % ("", m))
+    bad = judge(sched, facts) + judge_done(sched, facts)
+    for b in bad:
+        print("FAILS: %s (tick %d)" % (b["statement"], b["at"]))
+    if bad:
+        res.violation({"property": PID, "kind": "statement fails on implementation (replay)", "failing": dict(bad[0], schedule=sched[:bad[0]["at"] + 1])})
+
+
 def run(res, tier, seed, proof_broken, replay):
+    if replay:
+        replay_schedule(res, replay)
+        return
     rng = rng_for(seed, "c18")
     opens, fixed = load_known_findings(PID)
-    # 2. fixed entry replay: stop(forever=True) while the loop exits between wake() and the shutdown write
+    broken = list(proof_broken)
+    phase, t_ph = {}, [time.time()]
+
+    def lap(name):
+        phase[name] = round(time.time() - t_ph[0], 1)
+        t_ph[0] = time.time()
+    # 1b. the statement / write-site table of runnable.py extracted from the repo under test = the audited table (Props/C18Sites.lean)
+    ok_sites, detail, n_stmts, changed = sites_obligation()
+    if not ok_sites:
+        broken.append(detail)
+    lap("sites_table")
+    # 2. known-finding / fixed-entry / documented-counterexample replays on the real code (deterministic schedules)
+    robs, facts, _lk = c18_sched.run_real(ATTRERR_SCHED)
+    reproduced = facts[-1]["ret"] == "AttributeError"
+    ident = "wake-attributeerror-loop-exits-between-167-and-170"
+    if ident in opens:
+        if reproduced:
+            res.known.append(ident + " :: " + opens[ident])
+        else:
+            res.notes.append("known finding %s is stale (the schedule no longer raises)" % ident)
+    elif reproduced and ident not in fixed:
+        res.notes.append("wake() raised AttributeError on the schedule of Props/C18Threads.wake_attrerr_witness but the finding is not listed")
+    if ident in fixed and reproduced:
+        res.violation({"property": PID, "kind": "regression of fixed finding", "id": ident, "schedule": ATTRERR_SCHED, "observed": robs[-1]})
+    robs2, facts2, _lk = c18_sched.run_real(ALREADY_SCHED)
+    res.notes.append("restart_refused_while_old_loop_alive replayed on the real code: start() -> %s" % facts2[-1]["ret"])
     if "stop-final-race-skips-done" in fixed:
-        sched = ["C start", "L", "L", "C stop T T", "L", "Lt", "L", "A", "A"]
-        # app parked in wake(): let the loop run to completion first, then release the app thread
-        real, exc = run_schedule_real(["C start", "L", "C stop T T", "A"], None)
-        f = dict(x.split("=") for x in real[-1].split())
-        if f["loop"] == "dead" and f["app"] == "idle" and f["done"] != "1":
+        robs3, facts3, _lk = c18_sched.run_real(FIXED_SCHED)
+        for b in judge_done(FIXED_SCHED, facts3):
             res.violation({"property": PID, "kind": "regression of fixed finding", "id": "stop-final-race-skips-done",
-                           "schedule": ["C start", "L", "C stop T T", "A"], "observed": real[-1]})
-    n1, n2, n3, slen = (300, 60, 300, 14) if tier == "quick" else (5000, 250, 5000, 20)
+                           "failing": b, "schedule": FIXED_SCHED[:b["at"] + 1], "observed": robs3[b["at"]]})
+    # 3. correspondence
+    n1, n2, n3, slen = (300, 40, 300, 14) if tier == "quick" else (5000, 250, 5000, 20)
+    lap("replays")
     l1, d1 = corr_runseq(rng, n1)
+    lap("runseq")
     l2, steps2, d2 = corr_proto(rng, n2, slen)
+    lap("proto")
     l3, d3 = corr_notify(rng, n3)
-    dis = d1 + d2 + d3
+    lap("notify")
+    combos = [(False, False), (False, True), (True, True), (True, False)]
+    if tier == "quick":
+        scheds = window_schedules(rng, 6, 3, combos) + restart_schedules(rng, 6, 6, 40) + random_schedules(rng, 120, 15, 60)
+    else:
+        scheds = window_schedules(rng, 7, 5, combos) + restart_schedules(rng, 6, 6, None) + random_schedules(rng, 2500, 15, 90)
+    scheds += [("witness", ATTRERR_SCHED), ("witness", ALREADY_SCHED), ("witness", FIXED_SCHED)]
+    l4, ticks4, d4, fails4, pairs, leaked = corr_threads(scheds)
+    lap("threads")
+    fam_hist = {}
+    for (fam, _s2) in scheds:
+        fam_hist[fam] = fam_hist.get(fam, 0) + 1
+    dis = d1 + d2 + d3 + d4
     res.coverage.update({
-        "evaluations": len(l1) + steps2 + len(l3), "programs": n1 + n2 + n3,
-        "distinct_nontrivial": len(set(l1)) + len(set(l3)) + len({tuple(x) for x in [tuple(l2[i:i + 6]) for i in range(0, len(l2), 6)]}),
+        "evaluations": len(l1) + steps2 + len(l3) + ticks4, "programs": n1 + n2 + n3 + len(scheds),
+        "distinct_nontrivial": len(set(l1)) + len(set(l3)) + len({tuple(x) for x in [tuple(l2[i:i + 6]) for i in range(0, len(l2), 6)]})
+        + len({tuple(sc) for (_f, sc) in scheds}),
         "rule": "(a) random backoff parameter triples x outcome sequences (success/no-op/backoff request/Exception/BaseException), requested sleeps "
-                "compared with relative tolerance 1e-9; (b) random schedules of loop steps (with/without sleep timeout), application-thread steps and "
-                "stop(forever,wait)/wake/start/wait calls executed on real threads parked at hooks, observable summary compared after every step; "
-                "(c) random notification queues with stop markers and failing handlers; distinct = distinct input lines / schedule windows",
-        "samples": [{"runseq": l1[0]}, {"proto": l2[:12]}, {"notify": l3[0]}],
-        "disagreements_checked": len(dis), "schedule_steps": steps2, "fingerprints": fingerprints(FP_SPEC),
-        "protocol_states_in_certificate": 1235,
+                "compared with relative tolerance 1e-9; (b) random hook-level schedules (loop: do/sleep; application: wake/join) against the coarse "
+                "protocol model; (c) random notification queues with stop markers and failing handlers; (d) statement-level schedules of the real "
+                "start/stop/wake/wait (caller thread) and run (service thread), single-stepped with settrace + stub Thread/Event: EXHAUSTIVE "
+                "interleavings of stop(forever,wait) with the prologue of run() after start() returned (all 4 argument combinations), interleavings "
+                "of a restart with the exit of the old loop, random schedules; flags, statement labels of both threads, do()/done() counts, call "
+                "results and in_backoff compared with the two-thread Lean model after EVERY tick; distinct = distinct input lines / schedules",
+        "samples": [{"runseq": l1[0]}, {"proto": l2[:12]}, {"notify": l3[0]}, {"threads": l4[:24]}],
+        "disagreements_checked": len(dis), "schedule_steps": steps2, "thread_ticks": ticks4, "thread_schedule_families": fam_hist,
+        "thread_states_visited": len(pairs),
+        "thread_states_histogram_top": dict(sorted(pairs.items(), key=lambda kv: -kv[1])[:12]),
+        "phase_seconds": phase, "statement_table_rows": n_stmts, "statement_table_regenerated": changed, "leaked_threads": leaked,
+        "fingerprints": fingerprints(FP_SPEC), "protocol_states_in_certificate": 1235,
     })
     res.assumptions += ["binary floating point in the implementation vs Rat in the model: compared with relative tolerance 1e-9",
-                        "thread interleavings below hook granularity (individual flag reads/writes) are covered by the model's theorem only; the tie "
-                        "exercises interleavings at do()/sleep/wake()/join granularity on real threads (partial)",
-                        "one application thread issues stop/start/wake/wait calls sequentially; run(until=..., timeout=...) is not modelled"]
-    broken = list(proof_broken)
+                        "the real threads are single-stepped at LINE granularity (sys.settrace) with threading.Thread/Event replaced by "
+                        "scheduler-controlled stubs inside cloudsync.runnable; interleavings finer than a source line (the two flag reads of "
+                        "lines 100 / 119) are covered by the theorems only",
+                        "one caller thread issues stop/start/wake/wait calls sequentially; stop() from inside do() and run(timeout=...) are not modelled"]
     if dis:
         broken.append("correspondence %s-layer: %r" % (dis[0]["layer"], dis[0]))
-    if broken:
-        hit = oracle(rng_for(seed, "c18search"), tier)
+    # 4. the property's own statements on the implementation
+    if fails4:
+        res.violation({"property": PID, "kind": "statement fails on implementation", "failing": fails4[0], "other_failures": len(fails4) - 1,
+                       "broken": broken, "how_to_replay": "cd harness && printf '%s\\n' <schedule tokens> | /venv/bin/python c18_sched.py"})
+    elif broken:
+        hit = search_threads(rng_for(seed, "c18search-threads"), tier) or oracle(rng_for(seed, "c18search"), tier)
         if hit:
             res.violation({"property": PID, "kind": "statement fails on implementation", "failing": hit, "broken": broken})
         else:
             res.violation({"property": PID, "kind": "proof obligation or correspondence no longer checks", "broken": broken,
-                           "first_disagreements": dis[:3]}, no_input=True)
+                           "first_disagreements": dis[:3], "statement_table_difference": None if ok_sites else table_diff()}, no_input=True)
 
 
 if __name__ == "__main__":
